@@ -216,6 +216,18 @@ KNOWN_CLASSES["assign_lvalue_low_prec"] = ast_class(lambda n: _cn(n) == "Assignm
 KNOWN_CLASSES["multi_alignas"] = ast_class(lambda n: _cn(n) == "Decl" and isinstance(n.align, list) and len(n.align) > 1)
 KNOWN_CLASSES["qual_next_to_atomic_pointer"] = ast_class(
     lambda n: _cn(n) in ("Decl", "Typedef", "Typename") and n.quals and _cn(n.type) == "PtrDecl" and "_Atomic" in (n.type.quals or []) and any(q in (n.type.quals or []) for q in n.quals if q != "_Atomic"))
+def _base_td(n):
+    t = n.type
+    for _ in range(64):
+        if t is None or _cn(t) == "TypeDecl":
+            return t
+        t = getattr(t, "type", None)
+    return None
+
+
+KNOWN_CLASSES["qual_inside_atomic_pointer_typename"] = ast_class(
+    lambda n: _cn(n) in ("Decl", "Typedef", "Typename") and _cn(n.type) == "PtrDecl" and "_Atomic" in (n.type.quals or []) and _base_td(n) is not None
+    and any(q not in (n.quals or []) for q in (_base_td(n).quals or [])))
 KNOWN_CLASSES["pragma_operator"] = ast_class(lambda n: _cn(n) == "Pragma" and not isinstance(n.string, str))
 
 
